@@ -168,21 +168,23 @@ func (H) Gen(prop string, rng *rand.Rand, tier string) *core.Plan {
 }
 
 type run struct {
-	c         *core.RunCtx
-	n         *Node
-	db        string
-	shards    int
-	series    []seriesDef
-	shardOf   []int
-	route     bool         // writes are split by lindb's broker-side routing (hash -> shard, timestamp -> family)
-	own       map[int]bool // C12 node databases: the shards this database holds (nil = all)
-	forceOnly int          // > 0: the next write carries exactly field forceOnly-1 (mid-flush writes)
-	midFlush  bool         // the write in progress arrives while a flush runs (see pointEpoch)
-	forceNew  bool         // the next write goes to series that were never written before (writes while the index is being flushed)
-	points    []point
-	flushes   int
-	epoch     int
-	seqBase   uint32 // series id sequence set by the last jump
+	c          *core.RunCtx
+	n          *Node
+	db         string
+	shards     int
+	series     []seriesDef
+	shardOf    []int
+	route      bool         // writes are split by lindb's broker-side routing (hash -> shard, timestamp -> family)
+	own        map[int]bool // C12 node databases: the shards this database holds (nil = all)
+	forceOnly  int          // > 0: the next write carries exactly field forceOnly-1 (mid-flush writes)
+	lateSeries map[int]bool // ... and the series it writes to
+	lateWriter bool         // the statement in progress is asked while the late writer runs
+	midFlush   bool         // the write in progress arrives while a flush runs (see pointEpoch)
+	forceNew   bool         // the next write goes to series that were never written before (writes while the index is being flushed)
+	points     []point
+	flushes    int
+	epoch      int
+	seqBase    uint32 // series id sequence set by the last jump
 
 	pendingFirstLast func() // first C11/first-last-order observation of the run (known finding)
 }
@@ -911,6 +913,10 @@ func (r *run) query(op core.Op, duringFlush bool) {
 	before := len(r.points) // every write completed before the query started
 	flushDone := true
 	var latePoints []point
+	r.lateWriter, r.lateSeries = false, nil
+	defer func() {
+		r.lateWriter, r.lateSeries = false, nil
+	}()
 	defer func() {
 		// known findings (10.2): a statement that overlaps writes. Only the two analysed signatures, and only when this
 		// statement was asked while the late writer ran
@@ -943,9 +949,14 @@ func (r *run) query(op core.Op, duringFlush bool) {
 					v := float64(1 + rng.Intn(40))
 					fs = append(fs, rows.Field{Name: spec.name, Type: spec.typ, Value: v})
 					latePoints = append(latePoints, point{series: si, field: fi, ts: ts + int64(i)*10000, value: v, epoch: r.epoch})
+					if r.lateSeries == nil {
+						r.lateSeries = map[int]bool{}
+					}
+					r.lateSeries[si] = true
 				}
 				byShard[r.shardOf[si]] = append(byShard[r.shardOf[si]], rows.Point{Name: "m", Tags: r.series[si].tags(), Timestamp: ts + int64(i)*10000, Fields: fs})
 			}
+			r.lateWriter = true
 			c.Sim.Spawn("late-writer", func() {
 				for sh := 0; sh < r.shards; sh++ {
 					if len(byShard[sh]) > 0 {
@@ -1258,7 +1269,13 @@ func (r *run) compare(sqlText string, q queryDef, exp map[string]*expGroup, rs *
 						}
 						continue
 					}
-					c.Violate(prop+"/value-wrong", "%s: group %v slot %s = %v, expected %v", sqlText, e.tags, fmtTime(s), gv, want)
+					if r.lateWriter && q.kind != "rate" && someMissing(e.values[s], gv) {
+						// asked while the late writer ran (known finding, see query()): the value is what is left when
+						// some of the bucket's points are missing - the reader met a write window that was being compacted
+						c.Violate(prop+"/value-missing", "%s: group %v slot %s = %v, expected %v: the answer holds only a part of the written points", sqlText, e.tags, fmtTime(s), gv, want)
+						return
+					}
+					c.Violate(r.valueWrong(prop, e.values[s]), "%s: group %v slot %s = %v, expected %v", sqlText, e.tags, fmtTime(s), gv, want)
 					return
 				}
 			} else {
@@ -1269,7 +1286,7 @@ func (r *run) compare(sqlText string, q queryDef, exp map[string]*expGroup, rs *
 					}
 				}
 				if !found {
-					c.Violate(prop+"/value-wrong", "%s: group %v slot %s = %v, not one of the written values %v", sqlText, e.tags, fmtTime(s), gv, cands)
+					c.Violate(r.valueWrong(prop, e.values[s]), "%s: group %v slot %s = %v, not one of the written values %v", sqlText, e.tags, fmtTime(s), gv, cands)
 					return
 				}
 				// one series per group: first = first written point of the earliest storage slot of the bucket,
@@ -1280,7 +1297,7 @@ func (r *run) compare(sqlText string, q queryDef, exp map[string]*expGroup, rs *
 					if strict := strictFirstLast(fieldSpecs[q.field].agg, e.values[s]); gv != strict {
 						if sameSlotAndEpoch(e.values[s]) {
 							// one storage slot, written between the same two flushes: combined by write()/merge() alone
-							c.Violate(prop+"/value-wrong", "%s: group %v slot %s = %v, the %s written value of that storage slot is %v (written values %v)", sqlText, e.tags, fmtTime(s), gv, fieldSpecs[q.field].agg, strict, cands)
+							c.Violate(r.valueWrong(prop, e.values[s]), "%s: group %v slot %s = %v, the %s written value of that storage slot is %v (written values %v)", sqlText, e.tags, fmtTime(s), gv, fieldSpecs[q.field].agg, strict, cands)
 							return
 						}
 						if firstLastFlag == nil {
@@ -1422,6 +1439,41 @@ func strictFirstLast(agg string, ps []point) float64 {
 		}
 	}
 	return best.value
+}
+
+// valueWrong: the signature of a wrong value. A statement asked while the late writer sends rows for its series reads
+// memory databases whose write windows are being compacted under it (known finding, see query()): whatever it gets
+// for a series the writer is writing to - a part of the points, the zeros of a window that was just reset, the value
+// of a neighbouring slot - is that finding, not a new one.
+func (r *run) valueWrong(prop string, ps []point) string {
+	if r.lateWriter {
+		for _, p := range ps {
+			if r.lateSeries[p.series] {
+				return prop + "/value-missing"
+			}
+		}
+	}
+	return prop + "/value-wrong"
+}
+
+// someMissing: got is what a non-empty proper subset of the points gives - their sum (sum fields, sums of sums) or one
+// of them / one of the per-slot sums (min, max over fewer points).
+func someMissing(ps []point, got float64) bool {
+	if len(ps) < 2 || len(ps) > 16 {
+		return false
+	}
+	for mask := 1; mask < 1<<len(ps)-1; mask++ {
+		sum := 0.0
+		for i, p := range ps {
+			if mask&(1<<i) != 0 {
+				sum += p.value
+			}
+		}
+		if sum == got {
+			return true
+		}
+	}
+	return false
 }
 
 func sameSlotAndEpoch(ps []point) bool {
